@@ -415,7 +415,7 @@ type chgRun struct {
 func clientIO(conn net.Conn, tcp bool, host, path string, goCh chan struct{}, res chan connObs) {
 	<-goCh
 	defer conn.Close()
-	conn.SetDeadline(time.Now().Add(3 * time.Second))
+	conn.SetDeadline(time.Now().Add(20 * time.Second))
 	dropped := func(err error) bool {
 		return errors.Is(err, io.EOF) || errors.Is(err, io.ErrClosedPipe) || errors.Is(err, io.ErrUnexpectedEOF)
 	}
